@@ -19,6 +19,23 @@ Fixpoint bytes_of_hex (s : string) : list byte :=
 
 Definition VB (s : string) : value := VBytes (bytes_of_hex s).
 
+(* compact byte strings: large values are written as runs *)
+Inductive bspec : Type := Lit (l : list byte) | Rep (b : byte) (n : N) | Cat (x y : bspec).
+Fixpoint rep_pos (b : byte) (p : positive) : list byte :=
+  match p with
+  | xH => [b]
+  | xO p' => let l := rep_pos b p' in l ++ l
+  | xI p' => let l := rep_pos b p' in b :: l ++ l
+  end.
+Fixpoint bytes_of (s : bspec) : list byte :=
+  match s with
+  | Lit l => l
+  | Rep b N0 => []
+  | Rep b (Npos p) => rep_pos b p
+  | Cat x y => bytes_of x ++ bytes_of y
+  end.
+
+
 (* ---- C10, direction (a): bytes written by the harness' schema-directed encoder for a generated value
    of a registered type, and what Rust's bincode did with them: accepted with the Bridge's options /
    with trailing bytes forbidden / wrote the same bytes back.  The bytes are a "schema-valid encoding a
@@ -54,3 +71,15 @@ Definition run_a (reg : registry) (c : case_a) : N :=
   match c with (ty, hb, acc, strict, same) => verdict_a reg (FTypeName ty) hb acc strict same end.
 Definition case_b : Type := (format * list byte)%type.
 Definition run_b (reg : registry) (c : case_b) : N := verdict_b reg (fst c) (snd c).
+
+(* ---- C10, direction (c): a schema-valid encoding of an event, or of the output of an outstanding
+   request, offered to the real `Bridge` (its own private options, not a copy of them): the core must
+   accept it.  Verdict 9 when the model does not decode the bytes (generator fault). *)
+Definition verdict_c (reg : registry) (f : format) (b : list byte) (accepted : bool) : N :=
+  match decode reg f b with
+  | Some (_, _) => if accepted then 0 else 2
+  | None => 9
+  end.
+Definition case_c : Type := (format * bspec * bool)%type.
+Definition run_c (reg : registry) (c : case_c) : N :=
+  match c with (f, b, acc) => verdict_c reg f (bytes_of b) acc end.
